@@ -364,6 +364,12 @@ func (w *world) env(e replay.Entry) {
 		})
 	case "delxr":
 		w.s.MarkDeleted(xrKey(w.nameOf(e.O)))
+	case "rebind":
+		// an administrator moves the XR to another claim
+		w.s.Mutate(xrKey(w.nameOf(e.O)), func(u *unstructured.Unstructured) {
+			u.SetLabels(map[string]string{"crossplane.io/claim-name": otherClaim, "crossplane.io/claim-namespace": ns})
+			_ = unstructured.SetNestedMap(u.Object, claimRefOf(otherClaim), "spec", "claimRef")
+		})
 	default:
 		panic("unknown env step " + e.K)
 	}
